@@ -460,7 +460,6 @@ fn gen_batches(t: &mut Tape, cfg: &TypeCfg, pred: &dyn Fn(&LType) -> bool, allow
 
 // =====================================================================================================
 // IPC StreamDecoder
-const F4_KEY: &str = "F4-ipc-zero-body-last-message-no-eos";
 
 /// message layout of an IPC stream: spans, bodyLength of the last complete message if the walk ended exactly at
 /// the end of the data, EOS seen
@@ -656,12 +655,12 @@ fn sub_ipc(c: &mut Case) -> CaseResult {
     for f in &g.fields {
         c.class(format!("type:{}", f.ty.family()));
     }
-    let mut eos = !c.tape.chance(80);
+    // (fixed finding F4: a stream without end-of-stream marker ending in a zero-body message is no longer excluded)
+    let eos = !c.tape.chance(80);
     if !eos {
         let (_, last, _) = ipc_walk(&data[..data.len() - eos_len]);
-        if last == Some(0) && !c.strict {
-            c.exclude(F4_KEY);
-            eos = true;
+        if last == Some(0) {
+            c.class("no-eos-zero-body-last");
         }
     }
     if !eos {
@@ -677,21 +676,15 @@ fn sub_ipc(c: &mut Case) -> CaseResult {
         c.class("compressed");
     }
     let what = json!({"schema": format!("{:?}", g.schema.fields().iter().map(|f| f.data_type().to_string()).collect::<Vec<_>>()), "batches": g.batches.iter().map(|b| b.num_rows()).collect::<Vec<_>>(), "eos": eos, "mutation": kind});
-    // known finding F8: a dense union column panics when the pushed buffer is not 4-byte aligned
+    // (fixed finding F8: a dense union column panicked when the pushed buffer was not 4-byte aligned; no longer excluded)
     let dense_union = g.fields.iter().any(|f| f.ty.any(&|t| matches!(t, LType::Union { dense: true, .. })));
-    let am = if dense_union && !c.strict {
-        c.exclude(F8_KEY);
-        AlignMode::Safe
-    } else {
-        AlignMode::Any
-    };
+    let am = AlignMode::Any;
     if dense_union {
         c.class("dense-union");
     }
     ipc_case(c, "ipc", data, kind == "valid", what, am)
 }
 
-const F8_KEY: &str = "F8-ipc-dense-union-unaligned-buffer-panics";
 
 /// dedicated reproduction of F8: a valid V5 stream with a dense union column, pushed in buffers whose base address
 /// is odd (require_alignment = false is documented to copy unaligned data instead of failing)
@@ -711,12 +704,7 @@ fn sub_ipc_f8(c: &mut Case) -> CaseResult {
         w.write(&batch).map_err(|e| Fail::new("ipc:writer", e.to_string()))?;
         w.finish().map_err(|e| Fail::new("ipc:writer", e.to_string()))?;
     }
-    let am = if c.strict {
-        AlignMode::Misaligned
-    } else {
-        c.exclude(F8_KEY);
-        AlignMode::Safe
-    };
+    let am = AlignMode::Misaligned;
     c.class("dense-union");
     ipc_case(c, "ipc_f8", buf, true, json!({"schema": "Union(Dense, a: Int32, b: Utf8)", "rows": rows}), am)
 }
@@ -746,14 +734,8 @@ fn sub_ipc_f4(c: &mut Case) -> CaseResult {
     let (_, last, _) = ipc_walk(&buf[..buf.len() - 8]);
     ensure!(last == Some(0), "ipc:f4-shape", "generator did not produce a zero-length last body: {:?}", last);
     c.class(["shape:zero-column-batch", "shape:zero-row-batch", "shape:schema-only"][shape]);
-    if !c.strict {
-        // known finding: keep the end-of-stream marker (the decoder then processes the message when the marker arrives)
-        c.exclude(F4_KEY);
-    } else {
-        buf.truncate(buf.len() - 8);
-    }
-    let strict = c.strict;
-    ipc_case(c, "ipc_f4", buf, true, json!({"shape": shape, "batches": nb, "eos": !strict}), AlignMode::Any)
+    buf.truncate(buf.len() - 8);
+    ipc_case(c, "ipc_f4", buf, true, json!({"shape": shape, "batches": nb, "eos": false}), AlignMode::Any)
 }
 
 // =====================================================================================================
